@@ -37,6 +37,14 @@ def gen(c, num, seed, name):
         beh += part
     if len(beh) < num // 4:
         raise ToolError("too few StateMachine behaviours: %d" % len(beh))
+    kinds = set()
+    for b in beh:
+        for s in b["steps"]:
+            for r in ([s["req"]] if s["op"] == "apply" else s.get("reqs", [])):
+                kinds.add(r["t"])
+    if len(kinds) < 20:
+        raise ToolError("generated behaviours are not diverse: request kinds %s" % sorted(kinds))
+    c.cov["request_kinds_generated"] = sorted(kinds)
     return beh
 
 
@@ -76,12 +84,51 @@ def gen_mcp_thin(c, limit, seed):
             steps.append(s)
             if s["op"] == "compact":
                 steps.append({"op": "restart", "sm": s["sm"]})
-        steps.append({"op": "restart", "sm": steps[-1]["sm"]})
+        # ... then a restart, a compaction of the restarted node and another restart (every placement of compactions)
+        applied = 0
+        for s in steps:
+            if s["op"] == "apply":
+                applied = s["index"]
+            elif s["op"] == "apply_batch":
+                applied = s["index"] + len(s["reqs"]) - 1
+        last_sm = steps[-1]["sm"]
+        steps.append({"op": "restart", "sm": last_sm})
+        if steps[-2]["op"] not in ("compact", "restart"):
+            steps.append({"op": "compact", "upto": applied, "sm": last_sm})
+            steps.append({"op": "restart", "sm": last_sm})
         chosen.append({"steps": steps, "alphabet": "mcp_thin"})
     c.cov["mcp_thin_exported"] = len(allb)
     c.cov["mcp_thin_shapes"] = len(sigs)
     c.cov["mcp_thin_replayed"] = len(chosen)
     return chosen
+
+
+def transfer_leg(c, sc, beh, mode, keyfn):
+    """export of the state a behaviour leads to, import into a fresh single-member node: the request kinds only an
+    import sends go through restart / snapshot (mode transfer_c01) or the follower path (transfer_c07)"""
+    bf = vlib.write_ndjson(os.path.join(sc, "beh_transfer.ndjson"), beh)
+    res = vlib.harness(["replay", "sm", bf, "--mode", mode, "--jobs", 8], timeout=6000)
+    summ = [r for r in res if r.get("kind") == "summary"][0]
+    if summ.get("tool_errors", 0) > max(2, len(beh) // 8):
+        raise ToolError("transfer leg: too many tool errors: %s" % summ)
+    kinds = set()
+    notes = {}
+    for r in res:
+        for k in r.get("request_kinds", []):
+            kinds.add(k)
+        for n in r.get("notes", []):
+            notes[n.get("round_trip_differs")] = notes.get(n.get("round_trip_differs"), 0) + 1
+    need = {"ConfigFullValue", "McpReq::SetToolSpec", "McpReq::SetServer", "McpReq::ImportFinished", "NamespaceReq::Update",
+            "NamingReq::UpdateInstance", "TableManagerReq::Set"}
+    if not need <= kinds:
+        raise ToolError("transfer leg did not exercise the import request kinds %s" % sorted(need - kinds))
+    c.cov["import_request_kinds"] = sorted(kinds)
+    c.cov["round_trip_observations"] = notes
+    vlib.replay_results(c, beh, res, keyfn, "export / import on real nodes (%s)" % mode, nontrivial=lambda b: True)
+    if notes:
+        c.note("observation (not one of the listed properties): an export followed by an import into an empty node does not "
+               "rebuild %s (%s behaviours) - a namespace arrives as NamespaceRaftReq::Update, which an empty target ignores" %
+               (sorted(notes), dict(notes)))
 
 
 def tv_traces(c, sc, n, ops, c07=False):
